@@ -1064,9 +1064,12 @@ class BeaconConfig:
             killdate = f"{year:02d}-{month:02d}-{day:02d}"
         else:
             killdate = None
-            year = s.get("SETTING_KILLDATE_YEAR", 0)
-            month = s.get("SETTING_KILLDATE_MONTH", 0)
-            day = s.get("SETTING_KILLDATE_DAY", 0)
+            # The deprecated year and month settings share their index with newer settings and are therefore
+            # never present under their own name, so look up the legacy kill date fields by index.
+            s = self.raw_settings_by_index
+            year = s.get(BeaconSetting.SETTING_KILLDATE_YEAR.value, 0)
+            month = s.get(BeaconSetting.SETTING_KILLDATE_MONTH.value, 0)
+            day = s.get(BeaconSetting.SETTING_KILLDATE_DAY.value, 0)
             if year and month and day:
                 killdate = f"{year:02d}-{month:02d}-{day:02d}"
         return killdate
